@@ -194,11 +194,29 @@ def parse_transcript(text):
 
 def run_driver(config, blocks, tag, env=None, timeout=3600):
     exe = build_driver(config)
-    e = {'VERIF_STDERR_LOG': os.path.join(WORK, 'run', '%s.stderr' % tag),
+    slog = os.path.join(WORK, 'run', '%s-%s.stderr' % (tag, config))
+    if os.path.exists(slog):
+        os.unlink(slog)
+    e = {'VERIF_STDERR_LOG': slog,
          'ASAN_OPTIONS': 'detect_leaks=1:abort_on_error=0:allocator_may_return_null=1',
          'UBSAN_OPTIONS': 'print_stacktrace=0', 'TSAN_OPTIONS': 'halt_on_error=0'}
     e.update(env or {})
     return run_sharded(lambda path: [exe, path], blocks, tag + '-' + config, env=e, timeout=timeout)
+
+def read_stderr_log(tag, config):
+    """case id -> the first diagnostic lines the sanitizer / assert printed for that case"""
+    out = {}
+    import glob as _g
+    for path in _g.glob(os.path.join(WORK, 'run', '%s-%s.stderr*' % (tag, config))) + [os.path.join(WORK, 'run', '%s.stderr' % tag)]:
+        if not os.path.exists(path):
+            continue
+        cur = None
+        for line in open(path, errors='replace'):
+            if line.startswith('== '):
+                cur = line[3:].strip(); out.setdefault(cur, '')
+            elif cur is not None and len(out[cur]) < 400 and re.search(r'runtime error|ERROR: |Assertion|WARNING: ThreadSanitizer|SUMMARY', line):
+                out[cur] += re.sub(r'0x[0-9a-f]+', '0x#', line.strip())[:200] + ' | '
+    return out
 
 def transcript_text(blocks, res):
     L = []
